@@ -783,7 +783,7 @@ impl<'a, 'b> Script<'a, 'b> {
         }
         let qc = self.qc_of(&parent);
         let gap = parent_round + 1 != round;
-        let tc_mode = if gap { self.t.weighted(&[3, 2, 2]) } else { 2 };
+        let tc_mode = if gap { self.t.weighted(&[3, 2, 2, 2]) } else { 2 };
         let signers = self.puppet_quorum();
         let tc = match tc_mode {
             0 => {
@@ -798,12 +798,27 @@ impl<'a, 'b> Script<'a, 'b> {
                 e[k].1 = parent_round + 1 + self.t.below(3) as u64;
                 Some(self.w.tc(round - 1, &e))
             }
+            3 => {
+                // forged TC: looks safe (every reported round <= parent round) but is not signed by a
+                // quorum - one genuine signature, the others junk; only a node that skips verification
+                // of the embedded TC (for instance because it already is in this round) would vote
+                let one = signers[0];
+                let votes = signers
+                    .iter()
+                    .map(|i| {
+                        let hr = self.t.range(0, parent_round);
+                        let hq = QC { hash: Digest::default(), round: hr, votes: Vec::new() };
+                        (self.w.pk(*i), self.w.timeout(one, round - 1, hq).signature, hr)
+                    })
+                    .collect();
+                Some(TC { round: round - 1, votes })
+            }
             _ => None,
         };
         let b = self.w.block(self.w.leader(round), round, qc, tc, Vec::new());
-        let tc_name = ["safe", "unsafe", "none"][tc_mode];
+        let tc_name = ["safe", "unsafe", "none", "forged"][tc_mode];
         self.note(json!({"step": "fork-or-gap", "round": round, "parent_round": parent_round, "tc": tc_name}));
-        self.stat(&format!("fork-gap-tc-{}", ["safe", "unsafe", "none"][tc_mode]));
+        self.stat(&format!("fork-gap-tc-{}", tc_name));
         self.deliver_block(&b, None).await;
         // adopt as the new tip when it is the highest block and may be certified later
         if round > self.round_of(&self.tip.clone().unwrap_or_else(genesis_digest)) && self.can_certify(&b.digest()) && self.t.chance(2, 3) {
